@@ -243,21 +243,28 @@ static int recovery_probe(OggVorbis_File *vf,const refdec_t *F,rng_t *r,char *wh
 static void case_c12(const drvargs_t *a,long id){
   rng_t r; rng_seed(&r,a->seed,12,(uint64_t)(id/NSCN));     /* the stream is shared by the NSCN scenarios of a group */
   res_begin(id);
-  int scn=(int)(id%NSCN); int skind=(int)((id/NSCN)%3);
+  int scn=(int)(id%NSCN); int skind=(int)((id/NSCN)%4);
   chaindesc_t cd; buf_t s; buf_init(&s); char desc[600];
   ctx_mark("build");
   gen_chain(&r,skind==0?1:3,a->thorough?9000:5000,GC_ALLOW_EMPTY,&cd);
   if(skind==1){ cd.nlinks=3; for(int i=0;i<3;i++){ if(!cd.cfg[i].nsamples) cd.cfg[i].nsamples=1500+i; } }
   if(skind==2){ cd.nlinks=VH_MIN(cd.nlinks,2); for(int i=0;i<cd.nlinks;i++){ cd.policy[i]=PAGE_FLUSH_EACH; if(cd.cfg[i].nsamples>3000) cd.cfg[i].nsamples=3000; } }
-  for(int i=0;i<cd.nlinks;i++) if(cd.cfg[i].nsamples>6000 && !a->thorough) cd.cfg[i].nsamples=6000;
+  if(skind==3){ /* hand-built pages with tail-only pages (see mux_tailpages): page seeks walk backwards with _get_prev_page */
+    cd.nlinks=1; cd.cfg[0].mode=ENC_VBR; cd.cfg[0].channels=(int)rng_range(&r,1,2); cd.cfg[0].rate=44100; cd.cfg[0].quality=(float)(0.4+0.6*rng_unit(&r));
+    cd.cfg[0].sig= rng_chance(&r,0.5)?SIG_MULTI:SIG_NOISE; cd.cfg[0].nsamples=(long)rng_range(&r,30000,60000); cd.goffset[0]=0; }
+  for(int i=0;i<cd.nlinks;i++) if(cd.cfg[i].nsamples>6000 && !a->thorough && skind!=3) cd.cfg[i].nsamples=6000;
   /* gen_chain may have drawn a single link for skind 1: fill the other two */
   if(skind==1){ for(int i=1;i<3;i++) if(cd.cfg[i].rate==0){ cd.cfg[i]=cd.cfg[0]; cd.cfg[i].sigseed+=i; cd.serial[i]=cd.serial[0]+i*7+1; cd.policy[i]=cd.policy[0]; cd.fill[i]=cd.fill[0]; } }
   chain_describe(&cd,desc,sizeof desc-100);
+  if(skind==3){ encres_t er; if(enc_run(&cd.cfg[0],&er)){ encres_free(&er); res_sample("encoder refused"); res_end(); buf_free(&s); return; } mux_tailpages(&er.pk,cd.serial[0],cd.muxseed,&s); encres_free(&er); }
+  else
   if(build_chain(&cd,&s,NULL)){ res_sample("encoder refused"); res_end(); buf_free(&s); return; }
   refdec_t F; if(ref_decode(s.p,s.n,0,&F)){ res_viol("C12","harness:reference-decode-failed","%s: %s",F.err,desc); ref_free(&F); res_end(); buf_free(&s); return; }
   rng_t rs; rng_seed(&rs,a->seed,121,(uint64_t)id);
   scn_t S; S.scn=scn; S.target= F.total>0?(ogg_int64_t)rng_range(&rs,0,(long)F.total):0; if(rng_chance(&rs,0.3)) S.target=F.total; if(rng_chance(&rs,0.2)&&F.nlinks>1) S.target=F.l[F.nlinks-1].start;
   double dur=0; for(int i=0;i<F.nlinks;i++) dur+=(double)F.l[i].len/F.l[i].rate; S.ttarget=rng_unit(&rs)*dur; S.rawtarget=rng_range(&rs,0,(long)s.n);
+  if(skind==3 && F.total>10){ /* well inside the audio, where the page before the target holds only the tail of a continued packet (page seeks then walk backwards) */
+    S.target=(ogg_int64_t)(F.total*(0.3+0.65*rng_unit(&rs))); S.ttarget=dur*(0.3+0.65*rng_unit(&rs)); }
   { size_t k=strlen(desc); snprintf(desc+k,sizeof desc-k," | scenario %s target %lld",scnname[scn],(long long)S.target); }
   /* fault-free run: count callback invocations per class, separately for the open and for the scenario body */
   long Kopen[3],Kall[3]; long clean_ret; long clean_n;
@@ -322,7 +329,7 @@ static void case_c12(const drvargs_t *a,long id){
       if(o.open) ov_clear(&o.vf);
       if(res_nviol()>=6) goto out;
     }
-    if(!res_nviol()) res_bucket("%s|%s|%s",scnname[scn],fault_name(fk),skind==0?"single":skind==1?"chain3":"paged-small");
+    if(!res_nviol()) res_bucket("%s|%s|%s",scnname[scn],fault_name(fk),skind==0?"single":skind==1?"chain3":skind==2?"paged-small":"continued-pages");
   }
 out:
   res_count("faulted_runs",nruns); res_count("runs_reporting_error",nerr); res_count("recovery_probes_passed",nrecov);
